@@ -219,14 +219,22 @@ class Unknown(Val):
 
 
 class Alt(Val):
-    def __init__(self, vals: List[Val]):
+    def __new__(cls, vals: List[Val]):
         flat = []
         for v in vals:
             if isinstance(v, Alt):
                 flat.extend(v.vals)
             else:
                 flat.append(v)
-        self.vals = flat
+        # alternatives that are all scalars are one scalar Choice
+        if flat and all(isinstance(v, Sc) for v in flat):
+            return Sc(sym.Choice([v.e for v in flat]))
+        obj = object.__new__(cls)
+        obj.vals = flat
+        return obj
+
+    def __init__(self, vals: List[Val]):
+        pass
 
     def __repr__(self):
         return f"Alt({self.vals})"
